@@ -527,7 +527,14 @@ func newEnv(r *ev.Run, live bool, prod ...bool) (*env, error) {
 		Dir: r.Scratch, Name: name, NoHTTP: true,
 		// the websocket history settings differ between worker processes (default 300 / none / one entry): delivery to
 		// connected subscribers does not depend on them
-		Config:      func(c *config.AppConfig) { c.Websocket.HistoryMax = []int{300, 0, 1}[r.Worker%3] },
+		Config: func(c *config.AppConfig) {
+			c.Websocket.HistoryMax = []int{300, 0, 1}[r.Worker%3]
+			if r.Worker%4 == 3 {
+				// webhook.max_tries = 0: a failing webhook is given up at once, a healthy one (no hiccups in these
+				// workers) keeps receiving
+				c.Webhook.MaxTries = 0
+			}
+		},
 		WrapHeaders: deco.Wrap(hooks),
 		WrapRepos: func(rp *repository.Repositories) {
 			// bookkeeping failures of the webhooks store: UpdateWebhook of a healthy webhook fails now and then
